@@ -935,3 +935,203 @@ Proof.
   - destruct (withdraw_disp L p idx signer to) as [-> _]. exact Ht.
   - exact Ht.
 Qed.
+
+(* a concluded entry is never changed again *)
+Lemma concluded_stays L o id d :
+  bfind (l_disp L) id = Some d -> d_phase d = DConcluded -> (forall p a b c e, o <> LProgress p a b c e) ->
+  exists d', bfind (l_disp (fst (step L o))) id = Some d' /\ d_state d' = d_state d /\ d_phase d' = DConcluded.
+Proof.
+  intros Hf Hc Np. destruct o.
+  - destruct (deposit_disp L p assets idx from amts) as [-> _]. eauto.
+  - destruct (register_step L p t subs) as [->|(D & evs & out & Hr & _ & ->)]; [eauto|].
+    cbn [with_disp l_disp]. exists d. split; [|auto].
+    apply (register_rec_preserves (l_clock L) subs (fun D => bfind D id = Some d) (fun _ _ => True))
+      with (fuel := S (length subs)) (D := l_disp L) (p := p) (t := t) (evs := evs) (out := out); auto.
+    intros D0 p0 t0 D' evs0 _ H0 Hs. eapply register_single_keeps_concluded; eauto.
+  - exfalso. eapply Np. reflexivity.
+  - destruct (conclude_step' L p s subs) as [->|[evs E]]; [eauto|].
+    destruct (conclude_step _ _ _ _ _ _ E) as (_ & _ & D & out & Hcr & -> & _).
+    destruct (conclude_rec_spec _ _ _ _ _ _ _ _ Hcr) as (U & _).
+    specialize (U id). destruct (bfind D id) as [d'|] eqn:E'; [|congruence].
+    destruct U as (d0 & E0 & _ & S1 & _ & Ph). rewrite Hf in E0. injection E0 as <-.
+    exists d'. split; [reflexivity|]. split; [exact S1|]. destruct Ph as [Ph|[Ph _]]; congruence.
+  - destruct (concludefinal_step L p t) as [->|H]; [eauto|]. cbv zeta in H.
+    destruct H as (_ & _ & _ & _ & _ & Hnc & ->). cbn [l_disp]. rewrite bfind_bput.
+    destruct (bytes_eqb id (lp_id p)) eqn:Ei; [|eauto].
+    apply bytes_eqb_eq in Ei. subst id. rewrite Hf in Hnc. contradiction.
+  - destruct (withdraw_disp L p idx signer to) as [-> _]. eauto.
+  - eauto.
+Qed.
+
+(* ---------- the outcome depends only on the sub-channel states that are found ---------- *)
+Lemma outcome_rec_flat f s m : al_locked (st_alloc s) = [] -> outcome_rec (S f) s m = ROk (al_bals (st_alloc s)).
+Proof. intro H. rewrite outcome_rec_unfold, H. reflexivity. Qed.
+
+Lemma fold_left_ext_in {S B} (f g : S -> B -> S) l s :
+  (forall s b, In b l -> f s b = g s b) -> fold_left f l s = fold_left g l s.
+Proof.
+  revert s; induction l as [|b l IH]; intros s H; cbn [fold_left]; [reflexivity|].
+  rewrite H by (left; reflexivity). apply IH. intros s' b' Hin. apply H. right. exact Hin.
+Qed.
+
+Lemma outcome_congr f f' s m m' :
+  (forall l, In l (al_locked (st_alloc s)) ->
+     find_st m (sa_id l) = find_st m' (sa_id l)
+     /\ forall sub, find_st m (sa_id l) = Some sub -> al_locked (st_alloc sub) = []) ->
+  outcome_rec (S (S f)) s m = outcome_rec (S (S f')) s m'.
+Proof.
+  intro H. rewrite !outcome_rec_unfold. apply fold_left_ext_in. intros acc l Hl.
+  destruct (H l Hl) as [E Fl]. unfold obody. destruct acc as [out|e]; cbn [rbind]; [|reflexivity].
+  rewrite <- E. destruct (find_st m (sa_id l)) as [sub|] eqn:Ef; [|reflexivity].
+  rewrite !(outcome_rec_flat _ _ _ (Fl _ eq_refl)). reflexivity.
+Qed.
+Lemma outcome_nolock f f' s m m' : al_locked (st_alloc s) = [] -> outcome_rec (S f) s m = outcome_rec (S f') s m'.
+Proof. intro H. rewrite !(outcome_rec_flat _ _ _ H). reflexivity. Qed.
+
+(* the outcome over a lookup function, one level of sub-channels *)
+Definition flat_outcome (s : state) (g : bytes -> option state) : rres (list (list Z)) :=
+  fold_left (fun acc l =>
+    do out <- acc ;
+    match g (sa_id l) with
+    | None => RErr ESubMissing
+    | Some sub => merge_sub s l sub (al_bals (st_alloc sub)) out
+    end) (al_locked (st_alloc s)) (ROk (al_bals (st_alloc s))).
+
+Lemma outcome_rec_is_flat f s m :
+  (forall l sub, In l (al_locked (st_alloc s)) -> find_st m (sa_id l) = Some sub -> al_locked (st_alloc sub) = []) ->
+  outcome_rec (S (S f)) s m = flat_outcome s (find_st m).
+Proof.
+  intro H. rewrite outcome_rec_unfold. unfold flat_outcome. apply fold_left_ext_in. intros acc l Hl.
+  unfold obody. destruct acc as [out|e]; cbn [rbind]; [|reflexivity].
+  destruct (find_st m (sa_id l)) as [sub|] eqn:Ef; [|reflexivity].
+  rewrite (outcome_rec_flat _ _ _ (H _ _ Hl Ef)). reflexivity.
+Qed.
+Lemma outcome_rec_nolock_flat f s m g : al_locked (st_alloc s) = [] -> outcome_rec (S f) s m = flat_outcome s g.
+Proof. intro H. rewrite (outcome_rec_flat _ _ _ H). unfold flat_outcome. rewrite H. reflexivity. Qed.
+Lemma flat_outcome_ext s g g' :
+  (forall l, In l (al_locked (st_alloc s)) -> g (sa_id l) = g' (sa_id l)) -> flat_outcome s g = flat_outcome s g'.
+Proof.
+  intro H. unfold flat_outcome. apply fold_left_ext_in. intros acc l Hl. rewrite (H l Hl). reflexivity.
+Qed.
+
+Definition reg_state (D : disputes) (id : bytes) : option state := option_map d_state (bfind D id).
+Definition ledger_outcome (D : disputes) (root : bytes) : rres (list (list Z)) :=
+  match bfind D root with
+  | Some d => flat_outcome (d_state d) (reg_state D)
+  | None => RErr ENotRegistered
+  end.
+
+Lemma conclude_outcome_ledger now D s m D' evs out :
+  conclude_rec (S (length m)) now D s m = ROk (D', evs, out) ->
+  (forall l dl, In l (al_locked (st_alloc s)) -> bfind D' (sa_id l) = Some dl -> al_locked (st_alloc (d_state dl)) = []) ->
+  ledger_outcome D' (st_id s) = ROk out.
+Proof.
+  intros Hc Flat. destruct (conclude_rec_spec _ _ _ _ _ _ _ _ Hc) as (_ & _ & (d & Ed & Sd & _) & F & Ho).
+  unfold ledger_outcome. rewrite Ed, Sd. rewrite <- Ho. symmetry.
+  rewrite Forall_forall in F.
+  assert (Agree : forall l, In l (al_locked (st_alloc s)) -> find_st m (sa_id l) = reg_state D' (sa_id l)).
+  { intros l Hl. destruct (F _ Hl) as (sub & Hfs & _ & (dl & Edl & Sdl & _)).
+    rewrite (find_st_id _ _ _ Hfs) in Edl. unfold reg_state. rewrite Edl, Hfs. cbn [option_map]. congruence. }
+  destruct (al_locked (st_alloc s)) as [|l0 ls] eqn:El.
+  - apply outcome_rec_nolock_flat. exact El.
+  - destruct m as [|x m'].
+    + exfalso. destruct (F l0 (or_introl eq_refl)) as (sub & Hfs & _). discriminate Hfs.
+    + cbn [length]. rewrite outcome_rec_is_flat.
+      * apply flat_outcome_ext. rewrite El. exact Agree.
+      * rewrite El. intros l sub Hl Hfs. rewrite (Agree l Hl) in Hfs. unfold reg_state in Hfs.
+        destruct (bfind D' (sa_id l)) as [dl|] eqn:Edl; [|discriminate]. cbn [option_map] in Hfs. injection Hfs as <-.
+        eapply Flat; eauto.
+Qed.
+
+Lemma ledger_outcome_stable L o root d :
+  bfind (l_disp L) root = Some d -> d_phase d = DConcluded -> tree_concluded (l_disp L) root ->
+  (forall p a b c e, o <> LProgress p a b c e) ->
+  ledger_outcome (l_disp (fst (step L o))) root = ledger_outcome (l_disp L) root.
+Proof.
+  intros Hd Hc Ht Np. unfold ledger_outcome. rewrite Hd.
+  destruct (concluded_stays L o root d Hd Hc Np) as (d' & Hd' & Sd & _). rewrite Hd', Sd.
+  apply flat_outcome_ext. intros l Hl. destruct (Ht _ Hd Hc _ Hl) as (dl & Hdl & Hcl).
+  destruct (concluded_stays L o (sa_id l) dl Hdl Hcl Np) as (dl' & Hdl' & Sdl & _).
+  unfold reg_state. rewrite Hdl, Hdl'. cbn [option_map]. congruence.
+Qed.
+
+(* ---------- columns of the holdings ---------- *)
+Lemma nth_set_nth_any {A} i j (x d : A) l :
+  nth j (set_nth i x l) d = if (j =? i)%nat then (if (i <? length l)%nat then x else d) else nth j l d.
+Proof.
+  revert i j; induction l as [|y l IH]; intros i j.
+  - destruct i, j; cbn; try reflexivity. destruct (j =? i)%nat; reflexivity.
+  - destruct i as [|i], j as [|j]; cbn [set_nth nth length]; try reflexivity.
+    rewrite IH. change (S j =? S i)%nat with (j =? i)%nat. change (S i <? S (length l))%nat with (i <? length l)%nat.
+    reflexivity.
+Qed.
+Lemma col_zero_col hold i j :
+  col (zero_col hold i) j = if (j =? i)%nat then map (fun _ => 0%Z) hold else col hold j.
+Proof.
+  unfold col, zero_col. rewrite map_map. destruct (j =? i)%nat eqn:E.
+  - apply map_ext. intro r. rewrite nth_set_nth_any, E. destruct (i <? length r)%nat; reflexivity.
+  - apply map_ext. intro r. rewrite nth_set_nth_any, E. reflexivity.
+Qed.
+Lemma col_add_col hold i amts j :
+  length amts = length hold -> forallb (fun r => (i <? length r)%nat) hold = true ->
+  col (add_col hold i amts) j = if (j =? i)%nat then add_vec (col hold j) amts else col hold j.
+Proof.
+  unfold col. revert amts; induction hold as [|r hold IH]; intros [|m amts] L F; cbn [length] in *; try lia.
+  - destruct (j =? i)%nat; reflexivity.
+  - cbn [forallb] in F. apply andb_true_iff in F as [F1 F2]. cbn [add_col map]. rewrite IH by (try lia; exact F2).
+    rewrite nth_set_nth by (apply Nat.ltb_lt; exact F1).
+    destruct (j =? i)%nat eqn:E; cbn [add_vec]; [|reflexivity]. apply Nat.eqb_eq in E. subst. reflexivity.
+Qed.
+Lemma add_vec_zeros (A : list (list Z)) (v : list Z) : length v = length A -> add_vec (map (fun _ => 0%Z) A) v = v.
+Proof.
+  revert v; induction A as [|a A IH]; intros [|x v] L; cbn [length] in *; try lia; cbn [map add_vec]; [reflexivity|].
+  rewrite IH by lia. reflexivity.
+Qed.
+Lemma col_length (h : list (list Z)) i : length (col h i) = length h.
+Proof. unfold col. apply map_length. Qed.
+
+(* rows of an outcome have the width of the balances *)
+Lemma ofold_rows f s m c : forall ls oa out,
+  fold_left (obody f s m) ls (ROk oa) = ROk out -> Forall (fun r => length r = c) oa -> Forall (fun r => length r = c) out.
+Proof.
+  induction ls as [|l ls IH]; intros oa out H Fo; cbn [fold_left] in *.
+  - injection H as <-. exact Fo.
+  - destruct (obody f s m (ROk oa) l) as [o1|e] eqn:E1.
+    + apply (IH _ _ H). unfold obody in E1. cbn [rbind] in E1.
+      destruct (find_st m (sa_id l)) as [sub|]; [|discriminate].
+      destruct (outcome_rec f sub m) as [so|e]; cbn [rbind] in E1; [|discriminate].
+      destruct (merge_sub_ok _ _ _ _ _ _ E1) as [_ [_ [-> [HL [Him [Fs Fo']]]]]].
+      destruct (add_outcome_sums (sa_imap l) oa so _ _ HL Him Fs Fo') as [_ [_ A3]].
+      destruct oa as [|r0 oa']; [destruct so; [constructor|discriminate]|].
+      inversion Fo as [|? ? Hr0 _]; subst. cbn [cols_of] in A3. exact A3.
+    + rewrite fold_rerr in H by (intro; reflexivity). discriminate.
+Qed.
+Lemma outcome_rec_dims fuel s m out c :
+  outcome_rec fuel s m = ROk out -> Forall (fun r => length r = c) (al_bals (st_alloc s)) ->
+  Forall (fun r => length r = c) out /\ length out = length (al_bals (st_alloc s)).
+Proof.
+  destruct fuel as [|f]; [discriminate|]. rewrite outcome_rec_unfold. intros H Fo. split.
+  - eapply ofold_rows; eauto.
+  - destruct (ofold_sums _ _ _ _ _ _ H) as [_ I]. exact I.
+Qed.
+
+Lemma deposit_step L p assets idx from amts L' evs :
+  step_res L (LDeposit p assets idx from amts) = ROk (L', evs) ->
+  let f0 := match bfind (l_funds L) (lp_id p) with Some f => f | None => new_fund assets (length (lp_parts p)) end in
+  let i := N.to_nat idx in
+  exists acc', debit_all (l_acc L) from (combine assets amts) = Some acc'
+    /\ L' = with_acc_funds L acc' (bput (l_funds L) (lp_id p)
+               (mkFund (f_assets f0) (add_col (f_hold f0) i amts) (set_nth i true (f_dep f0)) false (f_wd f0)))
+    /\ f_assets f0 = assets /\ fund_dims_ok f0 = true /\ length (f_dep f0) = length (lp_parts p)
+    /\ f_settled f0 = false /\ nth i (f_dep f0) true = false /\ (i < length (lp_parts p))%nat
+    /\ length amts = length assets.
+Proof.
+  intros E f0 i. cbn [step_res] in E. guards.
+  destruct (debit_all (l_acc L) from (combine assets amts)) as [acc'|] eqn:D; [|discriminate].
+  injection E as <- _. fold f0 in G1, G2, G3. fold i in G0, G3. split_and.
+  repeat match goal with H : (_ =? _)%nat = true |- _ => apply Nat.eqb_eq in H end.
+  match goal with H : nlist_eqb (f_assets f0) assets = true |- _ => apply nlist_eqb_eq in H end.
+  match goal with H : (i <? _)%nat = true |- _ => apply Nat.ltb_lt in H end.
+  apply negb_true_iff in G2, G3.
+  exists acc'. splits; auto.
+Qed.
